@@ -375,6 +375,15 @@ def execute_geo(case):
         out.update(status="query-exception", exc=exc, trace=traceback.format_exc()[-900:])
         return out
     out.update(status="ok", result=res)
+    if cont == "plain" and not case.get("self_query") and len(case["qlat"]) >= 2 \
+            and len(case["qlat"]) <= 300 and len(case["qlat"]) % 3 == 0:
+        # call history on caller-owned query buffers (vt/monitors/history.py): same index object, same
+        # array objects, contents reversed in place between the calls
+        from vt.monitors import history
+        r = case["r"]
+        out["history"] = history.reuse_check(
+            lambda a, b: gi.query(a, b, r=r, **qkw),
+            (np.array(case["qlat"], dtype=float), np.array(case["qlon"], dtype=float)))
     return out
 
 
@@ -552,6 +561,11 @@ def check_geo(rec, case, fam=None):
         keys.append(key)
         rec.violation(key, case, detail)
 
+    if out.get("history"):
+        verdict, detail = out["history"]
+        rec.count("history.reuse_" + verdict.replace("/", ""))
+        if verdict == "stale":
+            viol("query-stale-state", detail)
     if out["status"] == "ctor-exception":
         msg = repr(out["exc"])
         if case.get("tree") == "KD" and metric == "haversine" and isinstance(out["exc"], ValueError) \
